@@ -275,7 +275,7 @@ class C19(Sim):
     FAULT_KINDS = ["prng_handover", "reject"]
     PROBES = ["radius<1", "radius>1", "grid_nonperfect_power", "grid_perfect_power", "box_dim>=4", "point_cloud_return",
               "normals_requested", "single_edge_polyline", "single_face_surface", "multi_component_polyline", "n1!=n2", "n1==n2",
-              "chi2_test_run", "chi2_polyline", "chi2_surface", "t_out_of_range", "t_endpoint", "degree0", "patch_nonsquare_net",
+              "chi2_test_run", "chi2_polyline", "chi2_surface", "ctrl_point_replaced", "t_out_of_range", "t_endpoint", "degree0", "patch_nonsquare_net",
               "shared_stream_run", "large_centre", "measured_then_deformed", "integer_control_net", "zero_area_face"]
     QUICK_RUNS = 3000
     THOROUGH_RUNS = 300000
@@ -349,7 +349,7 @@ class C19(Sim):
             chi2["target"] = rng.randint(CHI2_MIN_DRAWS, 7000)
             clients.append("sharer")
             max_steps = rng.randint(8, 24)
-        return {"stale_attrs": rng.chance(0.35), "faults_on": faults_on, "prng_mode": prng_mode, "world": world, "ops": ops, "bops": bops, "clients": clients,
+        return {"ctrl_edits": rng.chance(0.4), "stale_attrs": rng.chance(0.35), "faults_on": faults_on, "prng_mode": prng_mode, "world": world, "ops": ops, "bops": bops, "clients": clients,
                 "chi2": chi2, "max_steps": max_steps, "burst": rng.choice([0.2, 0.5, 0.8]),
                 "noise_rate": rng.choice([0.5, 1.0, 2.0]), "reject_rate": rng.choice([0.3, 0.6]),
                 "big_n": rng.chance(0.25)}
@@ -411,6 +411,9 @@ class C19(Sim):
             self.probes["zero_area_face"] += 1
         if any(c.get("int") for c in w["curves"] + w["patches"]):
             self.probes["integer_control_net"] += 1
+        # the control nets as they stand now (a client may replace control points between evaluations)
+        self.P_curves = [[list(p) for p in c["P"]] for c in w["curves"]]
+        self.P_patches = [[[list(p) for p in row] for row in c["P"]] for c in w["patches"]]
         self.curves = [M.splines.BezierCurve([list(p) for p in c["P"]]) for c in w["curves"]]
         self.patches = [M.splines.BezierPatch([[list(p) for p in row] for row in c["P"]]) for c in w["patches"]]
         self.shared = cfg["prng_mode"] == "shared_stream"
@@ -488,6 +491,17 @@ class C19(Sim):
     def _bezier_event(self, c, r):
         op = r.choice(self.cfg["bops"])
         w = self.cfg["world"]
+        if self.cfg.get("ctrl_edits") and r.chance(0.2):
+            # the caller edits the control polygon between evaluations: replaces one control point by a new vector
+            if r.chance(0.6):
+                k = r.below(len(w["curves"]))
+                cv = w["curves"][k]
+                new = [(float(r.randint(-6, 6)) if cv.get("int") or r.chance(0.3) else round(r.uniform(-4, 4), 3)) for _ in cv["P"][0]]
+                return {"c": c, "op": "ctrl_replace", "what": "curve", "k": k, "i": r.below(len(cv["P"])), "p": new}
+            k = r.below(len(w["patches"]))
+            pt = w["patches"][k]
+            new = [(float(r.randint(-6, 6)) if pt.get("int") or r.chance(0.3) else round(r.uniform(-4, 4), 3)) for _ in pt["P"][0][0]]
+            return {"c": c, "op": "ctrl_replace", "what": "patch", "k": k, "i": r.below(len(pt["P"])), "j": r.below(len(pt["P"][0])), "p": new}
         if op in ("curve_eval", "curve_ends", "as_polyline"):
             k = r.below(len(w["curves"]))
             if op == "curve_eval":
@@ -568,6 +582,11 @@ class C19(Sim):
             return 0 <= ev["w"] < len(w["polylines"])
         if op == "surface":
             return 0 <= ev["w"] < len(w["surfaces"])
+        if op == "ctrl_replace":
+            if ev["what"] == "curve":
+                return 0 <= ev["k"] < len(w["curves"]) and 0 <= ev["i"] < len(w["curves"][ev["k"]]["P"]) and len(ev["p"]) == len(w["curves"][ev["k"]]["P"][0])
+            P = w["patches"][ev["k"]]["P"] if 0 <= ev["k"] < len(w["patches"]) else None
+            return P is not None and 0 <= ev["i"] < len(P) and 0 <= ev["j"] < len(P[0]) and len(ev["p"]) == len(P[0][0])
         if op in ("curve_eval", "curve_ends", "curve_reject"):
             return 0 <= ev["k"] < len(w["curves"])
         if op == "as_polyline":
@@ -864,8 +883,19 @@ class C19(Sim):
     def _curve_ac(self, P):
         return "degree=%d" % (len(P) - 1) if len(P) - 1 <= 1 else "degree>=2"
 
+    def _do_ctrl_replace(self, ev):
+        M = self.M
+        self.probes["ctrl_point_replaced"] += 1
+        if ev["what"] == "curve":
+            self.curves[ev["k"]].pts[ev["i"]] = M.Vec(*ev["p"])
+            self.P_curves[ev["k"]][ev["i"]] = list(ev["p"])
+        else:
+            self.patches[ev["k"]].pts[ev["i"]][ev["j"]] = M.Vec(*ev["p"])
+            self.P_patches[ev["k"]][ev["i"]][ev["j"]] = list(ev["p"])
+        return 1
+
     def _do_curve_eval(self, ev):
-        P = self.cfg["world"]["curves"][ev["k"]]["P"]
+        P = self.P_curves[ev["k"]]
         t = self._t(ev["t"], ev["tform"])
         ac = self._curve_ac(P)
         if len(P) == 1:
@@ -884,7 +914,7 @@ class C19(Sim):
         return got
 
     def _do_curve_ends(self, ev):
-        P = self.cfg["world"]["curves"][ev["k"]]["P"]
+        P = self.P_curves[ev["k"]]
         ac = self._curve_ac(P)
         res = []
         for t, cp in ((0.0, P[0]), (1.0, P[-1]), (np.float64(1.0), P[-1]), (0, P[0]), (1, P[-1])):
@@ -925,7 +955,7 @@ class C19(Sim):
 
     def _do_patch_eval(self, ev):
         k = ev["k"]
-        P = self.cfg["world"]["patches"][k]["P"]
+        P = self.P_patches[k]
         u, v = self._t(ev["u"], ev["tform"]), self._t(ev["v"], ev["tform"])
         ac = self._patch_ac(P)
         out = call(self.patches[k].evaluate, u, v)
@@ -940,7 +970,7 @@ class C19(Sim):
 
     def _do_patch_corners(self, ev):
         k = ev["k"]
-        P = self.cfg["world"]["patches"][k]["P"]
+        P = self.P_patches[k]
         ac = self._patch_ac(P)
         res = []
         corners = [P[0][0], P[0][-1], P[-1][0], P[-1][-1]]
@@ -974,7 +1004,7 @@ class C19(Sim):
         return "rejected:" + type(out.exc).__name__
 
     def _do_curve_reject(self, ev):
-        P = self.cfg["world"]["curves"][ev["k"]]["P"]
+        P = self.P_curves[ev["k"]]
         t = self._t(ev["t"], ev["tform"])
         out = call(self.curves[ev["k"]].evaluate, t)
         self.judged += 1
@@ -982,7 +1012,7 @@ class C19(Sim):
                                    "BezierCurve(<%d points>).evaluate(%r)" % (len(P), float(t)))
 
     def _do_patch_reject(self, ev):
-        P = self.cfg["world"]["patches"][ev["k"]]["P"]
+        P = self.P_patches[ev["k"]]
         u, v = self._t(ev["u"], ev["tform"]), self._t(ev["v"], ev["tform"])
         bu, bv = not (0.0 <= u <= 1.0), not (0.0 <= v <= 1.0)
         out = call(self.patches[ev["k"]].evaluate, u, v)
@@ -1006,7 +1036,7 @@ class C19(Sim):
 
     def _do_as_polyline(self, ev):
         k, n = ev["k"], ev["n"]
-        P = self.cfg["world"]["curves"][k]["P"]
+        P = self.P_curves[k]
         dim = len(P[0])
         ac = "dim=%d" % dim
         site = "BezierCurve.as_polyline"
@@ -1051,7 +1081,7 @@ class C19(Sim):
 
     def _do_as_surface(self, ev):
         k, n1, n2 = ev["k"], ev["n1"], ev["n2"]
-        P = self.cfg["world"]["patches"][k]["P"]
+        P = self.P_patches[k]
         ac = "n1==n2" if n1 == n2 else ("n1>n2" if n1 > n2 else "n1<n2")
         self.probes["n1==n2" if n1 == n2 else "n1!=n2"] += 1
         site = "BezierPatch.as_surface"
